@@ -64,10 +64,14 @@ class VTime:
     def __init__(self):
         self.manual = 0.0
         self.loop = None
+        # time.time() is a wall clock: nothing relates it to loop.time().  C20 sets a large offset
+        # (a power of two, so that the dyadic virtual times stay exact) - code that feeds one
+        # clock's value to the other then shows.
+        self.offset = 0.0
 
     def time(self):
         if self.loop is not None:
-            return self.loop.time()
+            return self.offset + self.loop.time()
         return self.manual
 
 
@@ -80,6 +84,7 @@ class Env:
         self.rawsocket = fresh_import(repo, 'aiorpcx.rawsocket')
         self.jsonrpc = fresh_import(repo, 'aiorpcx.jsonrpc')
         self.curio = fresh_import(repo, 'aiorpcx.curio')
+        self.framing = fresh_import(repo, 'aiorpcx.framing')
         logging.disable(logging.CRITICAL)
         self.vtime = VTime()
         self.session.time = self.vtime
@@ -143,3 +148,32 @@ class Env:
         t.proto = proto
         proto.connection_made(t)
         return proto, t, proto.session
+
+
+def find_incoming_limiter(session):
+    """the limiter guarding the request handlers: by its usual name, else (the attribute was
+    renamed) the first attribute that quacks like a limiter and is not the outgoing one"""
+    def quacks(o):
+        return hasattr(o, 'max_concurrent') and hasattr(o, 'set_target')
+    c = getattr(session, '_incoming_concurrency', None)
+    if quacks(c):
+        return c
+    found = [(k, v) for k, v in sorted(vars(session).items()) if quacks(v)]
+    for k, v in found:
+        if 'out' not in k.lower():
+            return v
+    return found[0][1] if found else None
+
+
+def find_outgoing_limiter(session):
+    def quacks(o):
+        return hasattr(o, 'max_concurrent') and hasattr(o, 'set_target')
+    c = getattr(session, '_outgoing_concurrency', None)
+    if quacks(c):
+        return c
+    inc = find_incoming_limiter(session)
+    found = [(k, v) for k, v in sorted(vars(session).items()) if quacks(v) and v is not inc]
+    for k, v in found:
+        if 'out' in k.lower():
+            return v
+    return found[0][1] if found else None
